@@ -785,7 +785,19 @@ func modelAtomicStore(fc *FnCtx, fr *Frame, st *State, instr ssa.Instruction, c 
 		env2 := fc.frameEnv(fr, st)
 		env2.bind(ai.Params[0], cur, types.Typ[types.Uint64])
 		env2.bind(ai.Params[1], v, types.Typ[types.Uint64])
-		fc.obligeClause(st, "atomic", "store:"+shortKey(ai.Key), fc.evalClauseEnv(st, fr.entry, ai.Inv, env2), ai.Inv, instr.Pos())
+		exempt := false
+		if fc.spec != nil {
+			for _, r := range fc.spec.Resets {
+				if r == ai.Key {
+					exempt = true
+				}
+			}
+		}
+		if exempt {
+			fc.assumptions["RESET: "+fc.name+" (re)initialises "+ai.Key+" outside its rely/guarantee relation (declared by `resets`)"] = true
+		} else {
+			fc.obligeClause(st, "atomic", "store:"+shortKey(ai.Key), fc.evalClauseEnv(st, fr.entry, ai.Inv, env2), ai.Inv, instr.Pos())
+		}
 	}
 	fc.setHeap(st, "AT_u64", tStore(h, recv, v))
 	fc.checkStepInv(fr, st, instr)
